@@ -428,6 +428,44 @@ def run(v):
                     continue
                 obs = [sorted(x) for x in H.edges.members()]
                 sunflower_cases.append(((l_, c_, m_), G.gpair(f"{l_}%nat", f"{c_}%nat", f"{m_}%nat", gnatlists(obs))))
+    # star_clique and ring_lattice: the edge lists against the model's
+    star_cases, ring_cases = [], []
+    for ns_ in range(1, 4):
+        for nc_ in range(1, 5):
+            for dm_ in range(0, min(nc_ - 1, 3) + 1):
+                try:
+                    with warnings.catch_warnings():
+                        warnings.simplefilter("ignore")
+                        H = xgi.star_clique(ns_, nc_, dm_)
+                except Exception as e:  # noqa: BLE001
+                    failures.append((f"{PROP}:star_clique:raises", {"what": f"star_clique({ns_}, {nc_}, {dm_}) raised {type(e).__name__}: {e}"}))
+                    continue
+                if sorted(H.nodes) != list(range(ns_ + nc_)):
+                    failures.append((f"{PROP}:star_clique:nodes", {"what": f"star_clique({ns_}, {nc_}, {dm_}) has nodes {list(H.nodes)}"}))
+                ms_ = [frozenset(x) for x in H.edges.members()]
+                want_ = ([frozenset({0, i}) for i in range(1, ns_)] + [frozenset({0, ns_})] +
+                         [frozenset(c) for dd in range(1, dm_ + 1) for c in itertools.combinations(range(ns_, ns_ + nc_), dd + 1)])
+                if sorted(map(sorted, ms_)) != sorted(map(sorted, want_)):
+                    failures.append((f"{PROP}:star_clique:edges", {"what": f"star_clique({ns_}, {nc_}, {dm_}) does not consist of the {ns_ - 1} legs, the link and every set of 2..{dm_ + 1} clique nodes once: {sorted(map(sorted, ms_))}"}))
+                star_cases.append(((ns_, nc_, dm_), G.gpair(f"{ns_}%nat", f"{nc_}%nat", f"{dm_}%nat", gnatlists([sorted(x) for x in H.edges.members()]))))
+    for n_ in range(3, 8):
+        for d_ in (2, 3):
+            for k_ in (0, 2, 4):
+                for l_ in (0, 1, 2):
+                    try:
+                        with warnings.catch_warnings():
+                            warnings.simplefilter("ignore")
+                            H = xgi.ring_lattice(n_, d_, k_, l_)
+                    except Exception as e:  # noqa: BLE001
+                        failures.append((f"{PROP}:ring_lattice:raises", {"what": f"ring_lattice({n_}, {d_}, {k_}, {l_}) raised {type(e).__name__}: {e}"}))
+                        continue
+                    if sorted(H.nodes) != list(range(n_)):
+                        failures.append((f"{PROP}:ring_lattice:nodes", {"what": f"ring_lattice({n_}, {d_}, {k_}, {l_}) has nodes {sorted(H.nodes)}"}))
+                    if d_ == 2 and l_ == 0 and n_ > k_:
+                        want_ = sorted(sorted({i, (i + j) % n_}) for i in range(n_) for j in range(1, k_ // 2 + 1))
+                        if sorted(sorted(x) for x in H.edges.members()) != want_:
+                            failures.append((f"{PROP}:ring_lattice:graph", {"what": f"ring_lattice({n_}, 2, {k_}, 0) is not the ring lattice graph with {k_ // 2} neighbours on either side"}))
+                    ring_cases.append(((n_, d_, k_, l_), G.gpair(f"{n_}%nat", f"{d_}%nat", f"{k_}%nat", f"{l_}%nat", gnatlists([sorted(x) for x in H.edges.members()]))))
     cdir = C.cases_dir(PROP)
     body = ("Definition comb_t := [" + ";\n".join(G.gpair(f"{n}%nat", f"{m}%nat", gnatlists(t)) for n, m, t in comb_t) + "].\n"
             "Definition prod_t := [" + ";\n".join(G.gpair(f"{n}%nat", f"{m}%nat", gnatlists(t)) for n, m, t in prod_t) + "].\n"
@@ -444,11 +482,18 @@ def run(v):
     f5 = os.path.join(cdir, "cases_C16_sunflower.v")
     C.write_case_file(f5, [IMPORTS], "Definition cases : list (nat * nat * nat * list (list nat)) := [\n" +
                       ";\n".join(t for _, t in sunflower_cases) + "\n].\nEval vm_compute in (sunflower_bad cases).\n")
-    res = C.run_coq_files([f1, f2, f3, f4, f5])
+    f6 = os.path.join(cdir, "cases_C16_star.v")
+    C.write_case_file(f6, [IMPORTS], "Definition cases : list (nat * nat * nat * list (list nat)) := [\n" +
+                      ";\n".join(t for _, t in star_cases) + "\n].\nEval vm_compute in (star_clique_bad cases).\n")
+    f7 = os.path.join(cdir, "cases_C16_ring.v")
+    C.write_case_file(f7, [IMPORTS], "Definition cases : list (nat * nat * nat * nat * list (list nat)) := [\n" +
+                      ";\n".join(t for _, t in ring_cases) + "\n].\nEval vm_compute in (ring_lattice_bad cases).\n")
+    res = C.run_coq_files([f1, f2, f3, f4, f5, f6, f7])
     for path, keys, what in ((f1, None, "decoder tables"), (f2, er_cases, "uniform_erdos_renyi_hypergraph with recorded draws"),
                              (f3, fast_cases, "fast_random_hypergraph with recorded draws"),
                              (f4, complete_cases, "complete_hypergraph edge list"),
-                             (f5, sunflower_cases, "sunflower edge list")):
+                             (f5, sunflower_cases, "sunflower edge list"), (f6, star_cases, "star_clique edge list"),
+                             (f7, ring_cases, "ring_lattice edge list")):
         rc, out = res[path]
         pairs = C.parse_pairs(out) if rc == 0 else None
         if pairs is None:
@@ -464,7 +509,7 @@ def run(v):
     ndec = sum(len(t) for _, _, t in comb_t) + sum(len(t) for _, _, t in prod_t) + sum(len(t) for _, t in part_t)
     v.coverage.update({
         "evaluations": ndec + len(er_cases) + len(fast_cases) + len(complete_cases),
-        "complete_cases": len(complete_cases), "sunflower_cases": len(sunflower_cases), "boundary_calls": nboundary,
+        "complete_cases": len(complete_cases), "sunflower_cases": len(sunflower_cases), "star_cases": len(star_cases), "ring_cases": len(ring_cases), "boundary_calls": nboundary,
         "distinct_nontrivial": len(comb_t) + len(prod_t) + len(part_t) + len({k for k, _ in er_cases}) + len({repr(k) for k, _ in fast_cases}),
         "rule": f"decoders exhaustively for n <= {nmax}, m <= 5 (combinations), n <= 4, m <= 3 (tuples) and 7 block-size lists; "
                 "uniform_erdos_renyi_hypergraph (both multiedge modes) and fast_random_hypergraph re-run in the model from "
